@@ -15,7 +15,7 @@ theorem handlePacket_bad_ack {s : RState} {id : Nat} {cid : String} {c : Conn} {
     cases hb : (c.out.registerAck pkid).2 with
     | false => rfl
     | true =>
-      obtain ⟨fi, cur, rest, e⟩ := (registerAck_spec c.out pkid).2.mp hb
+      obtain ⟨fi, cur, rest, e⟩ := (registerAck_spec c.out pkid).1.mp hb
       exact absurd e (hhead fi cur rest)
   rcases hpkt with rfl | rfl
   · simp only [handlePacket, hc, hno, Bool.not_false, if_true]
